@@ -1,14 +1,3 @@
-// (inside mod lexer::tokens) well-formedness of a packed (value type, payload id) word as ValueTypeAndPayloadId::new makes it
-pub open spec fn vap_ok(v: ValueTypeAndPayloadId) -> bool { v.value_type_and_payload_id & 0xFF <= 14 }
-// What the parser relies on about a token list produced by lex(): it ends in TWO EndOfSource tokens (so that one
-// over-consumption is harmless), has fewer than 2^24 tokens (ids fit 24 bits) and every packed word is well formed.
-pub open spec fn ltok_ok(t: Tokens) -> bool {
-	&&& 2 <= t.tokens@.len() < 0x1000000
-	&&& t.tokens@[t.tokens@.len() - 1] == BaseToken::EndOfSource
-	&&& t.tokens@[t.tokens@.len() - 2] == BaseToken::EndOfSource
-	&&& t.token_vaps@.len() == t.tokens@.len()
-	&&& forall|i: int| 0 <= i < t.token_vaps@.len() ==> vap_ok(#[trigger] t.token_vaps@[i])
-}
 // spec side of the id conversions (vstd FromSpec mechanism)
 impl vstd::std_specs::convert::FromSpecImpl<TokenId> for usize {
 	open spec fn obeys_from_spec() -> bool { true }
